@@ -39,7 +39,7 @@ def main():
             src = os.path.join(REPO, 'tests', extra)
             if os.path.exists(src):
                 shutil.copy(src, tmp)
-        args = ['-q', '-p', 'no:cacheprovider', '-x', '--timeout=900',
+        args = ['-q', '-p', 'no:cacheprovider', '-x', '--timeout=3000',
                 '-W', 'ignore'] + sys.argv[1:] + [tmp]
         return pytest.main(args)
     finally:
